@@ -35,6 +35,12 @@
                         path of identifiers spells the key of a test, so
                         `get_function`/script calls cannot reach one, and
                         `get_function "x"` is the function.
+     `get_function_resolves` / `get_function_missing`  over the GENERATED look-up key of
+                        `Module::get_function` and `Package::get_function`: a name is the path
+                        of an item from the root — `a.b.f` is the `f` of module `a.b` and of no
+                        other, whatever the modules are called (also `pkg`); any other spelling
+                        is missing.  (`discovery_runs` rests on the same key: `get_tests`
+                        strips `pkg.` and the look-up must put exactly that back.)
   T4 `cli_exit_*`       decision table of `cli` over the exit STATUS (`ExitCode` is a
                         number, `failed` = status ≠ 0; `cli_exit_test_count`:
                         `failed` = (rejecting blocks > 0) for every count):
@@ -280,18 +286,32 @@ theorem entry_status (t : Table) (want : Sig) (name : Name) :
   | none => simp
   | some i => by_cases hs : i.sig = want <;> simp [hs]
 
+/-- the entry point `function` of `roto run` is a path from the root of the package (`main`,
+    `util.start`): it is MISSING when the table has no key `pkg.` ++ function … -/
+def entryMissing (t : Table) (function : Name) : Prop := t.find (pkgDot ++ function) = none
+/-- … and MISTYPED when that key's function is not a `fn()`. -/
+def entryMistyped (t : Table) (function : Name) : Prop :=
+  ∃ i, t.find (pkgDot ++ function) = some i ∧ i.sig ≠ entrySig
+
+/-- T4 (`run`), over the GENERATED `cli`, `Package::get_function` and the generated look-up key of
+    `Module::get_function`: failure exactly for a compile error or a missing or mistyped entry
+    point, where the entry point is the function at the path `function` from the root and no
+    other (in particular `pkg.f` is the `f` of a submodule called `pkg`, never the root's `f`);
+    the entry is called once on success and never otherwise. -/
 theorem cli_exit_run (dbg : Bool) (W : World) (hctx : W.hasCtx = false) (file : TR.Path) (function : Name) :
     ∃ code log, cli dbg W ⟨.Run file function⟩ W.runtime [] = (.ok code, log) ∧
-      (code.failed = true ↔ (compileOk W = false ∨ ∃ e, get_function W.table entrySig function = .Err e)) ∧
+      (code.failed = true ↔ (compileOk W = false ∨ entryMissing W.table function ∨ entryMistyped W.table function)) ∧
       log.filter isEntryCall = (if code.failed then [] else [.calledEntry (pkgDot ++ function)]) ∧
       log.filter isRanTest = [] := by
+  unfold entryMissing entryMistyped
+  rw [← entry_status]
   obtain ⟨hc, r, p, t, tb⟩ := W
   simp only at hctx
   subst hctx
   cases r <;> cases p <;> cases t <;>
     simp [cli, cli_inner_result, cli_inner, Run.reify, compileOk, World.FileTree_read, World.parse, World.typecheck,
       Cli.try_, Run.bind_apply, World.runtime, World.try_without_ctx, World.codegen, World.lower_to_lir, World.lower_to_mir,
-      Package.get_function, Module.get_function]
+      Package_get_function_spec]
   all_goals first | exact ⟨_, _, ⟨rfl, rfl⟩, rfl, by simp [isEntryCall], by simp [isRanTest]⟩ | skip
   cases hg : get_function tb entrySig function with
   | Err e =>
@@ -312,6 +332,69 @@ theorem cli_exit_run (dbg : Bool) (W : World) (hctx : W.hasCtx = false) (file : 
     · simp
     · simp [isEntryCall, hk, List.filter_cons]
     · simp [isRanTest]
+
+/-- Entry points and host look-ups name functions by their path from the root, over the
+    GENERATED `Package::get_function` / look-up key: on a package whose table holds its items
+    under distinct keys, the name `a.b.f` yields the function `f` of the module `a.b` — its own
+    table entry — whatever the modules are called (a submodule may be called `pkg`) … -/
+theorem get_function_resolves (mods : List Mod) (module : Module)
+    (hperm : module.functions.Perm (packageTable test_fn_name_mir test_sig_mir mods))
+    (hnodup : (Table.keys module.functions).Nodup)
+    (m : Mod) (hm : m ∈ mods) (f : Name) (info : FnInfo) (hd : Decl.fn f info ∈ m.decls) :
+    Package_get_function ⟨module⟩ info.sig (dotJoin (m.path ++ [f])) = .Ok ⟨fullName m.path f, info⟩ := by
+  rw [Package_get_function_spec]
+  have hmem : (fullName m.path f, info) ∈ module.functions := by
+    apply hperm.symm.subset
+    simp only [packageTable, List.mem_flatMap, moduleTable, List.mem_map]
+    exact ⟨m, hm, .fn f info, hd, rfl⟩
+  have hfind := find_of_mem_nodup module.functions _ info hnodup hmem
+  rw [fullName_path] at hfind ⊢
+  unfold get_function
+  simp [hfind]
+
+/-- … and a name that is the path of no item is missing: no other spelling (the qualified form
+    `pkg.f` of the root's `f`, a name with a segment dropped) reaches a function. -/
+theorem get_function_missing (mods : List Mod) (module : Module)
+    (hperm : module.functions.Perm (packageTable test_fn_name_mir test_sig_mir mods))
+    (name : Name) (want : Sig)
+    (hno : ∀ m ∈ mods, ∀ d ∈ m.decls, dotJoin (m.path ++ [d.key test_fn_name_mir]) ≠ name) :
+    Package_get_function ⟨module⟩ want name = .Err .doesNotExist := by
+  rw [Package_get_function_spec]
+  have hnot : pkgDot ++ name ∉ Table.keys module.functions := by
+    intro hk
+    have hk' : pkgDot ++ name ∈ Table.keys (packageTable test_fn_name_mir test_sig_mir mods) :=
+      (hperm.map _).subset hk
+    simp only [Table.keys, packageTable, moduleTable, List.mem_map, List.mem_flatMap] at hk'
+    obtain ⟨⟨k, i⟩, ⟨m, hm, d, hd, he⟩, hkk⟩ := hk'
+    simp only [Prod.mk.injEq] at he
+    have : fullName m.path (d.key test_fn_name_mir) = pkgDot ++ name := he.1.trans hkk
+    rw [fullName_path] at this
+    exact hno m hm d hd (List.append_cancel_left this)
+  have := find_none_of_not_mem module.functions _ hnot
+  unfold get_function
+  simp [this]
+
+/-- non-vacuity: a root with `main` and a block `check`, a submodule called `pkg` with `entry`
+    and a rejecting block `check`.  `pkg.entry` is the submodule's function, `pkg.main` names
+    nothing (the root's `main` is `main`), `roto run … pkg.main` fails and `roto run … pkg.entry`
+    calls that function once; both blocks run, the submodule's own one rejects: `Err`. -/
+example :
+    let check : Name := ['c', 'h', 'e', 'c', 'k']
+    let main : Name := ['m', 'a', 'i', 'n']
+    let entry : Name := ['e', 'n', 't', 'r', 'y']
+    let mods : List Mod := [⟨[], [.fn main ⟨entrySig, .Accept ()⟩, .test check (.Accept ())]⟩,
+                            ⟨[pkgName], [.fn entry ⟨entrySig, .Accept ()⟩, .test check (.Reject ())]⟩]
+    let tb := packageTable test_fn_name_mir test_sig_mir mods
+    let W : World := ⟨false, true, true, true, tb⟩
+    let failed (o : Out CliErr ExitCode) : Option Bool := match o with | .ok c => some c.failed | _ => none
+    Package_get_function ⟨⟨tb⟩⟩ entrySig (pkgDot ++ entry) = .Ok ⟨pkgDot ++ pkgDot ++ entry, ⟨entrySig, .Accept ()⟩⟩ ∧
+    Package_get_function ⟨⟨tb⟩⟩ entrySig (pkgDot ++ main) = .Err .doesNotExist ∧
+    Package_get_function ⟨⟨tb⟩⟩ entrySig main = .Ok ⟨pkgDot ++ main, ⟨entrySig, .Accept ()⟩⟩ ∧
+    failed (cli true W ⟨.Run ⟨⟩ (pkgDot ++ main)⟩ W.runtime []).1 = some true ∧
+    (cli true W ⟨.Run ⟨⟩ (pkgDot ++ entry)⟩ W.runtime []).2.filter isEntryCall = [.calledEntry (pkgDot ++ pkgDot ++ entry)] ∧
+    run_tests (ε := Unit) true ⟨tb⟩ () []
+      = (.ok (.Err ()), [.ranTest (pkgDot ++ pkgDot ++ test_fn_name_mir check), .ranTest (pkgDot ++ test_fn_name_mir check)]) := by
+  decide
 
 /-- non-vacuity of the CLI table: a world that compiles, with one rejecting test and a good `main`. -/
 example :
